@@ -57,6 +57,14 @@ def parse_filter_dict(filter_dict: Dict[str, Any]) -> List[FilterExpression]:
     """
     expressions = []
     for column, condition in filter_dict.items():
+        if isinstance(condition, tuple) and len(condition) != 2:
+            # A condition tuple is (operator, value). Any other arity used to
+            # fall through to "equality with the tuple itself", which only
+            # failed (or silently matched nothing) deep inside pyarrow.
+            raise ValueError(
+                f"Malformed filter for column '{column}': expected (operator, value), "
+                f"got a tuple of length {len(condition)}"
+            )
         if isinstance(condition, tuple) and len(condition) == 2:
             op_str, value = condition
             op_str_lower = op_str.lower() if isinstance(op_str, str) else op_str
